@@ -542,7 +542,7 @@ func init() {
 		ruleGCFlushFirst(r)
 		ruleFreeListLocks(r)
 		ruleHandoverOwners(r)
-		r.support([]string{"config-wiring", "reloc-binding", "keycheck", "samevalue-guard", "immutable-noeffect", "deleted-check", "layout", "atomic-rmw", "commit-order", "flush-callers", "upgrade-order", "retain", "append-flags", "reloc-keys", "close-mustcall", "cancel-not-completion", "data-file-writers", "bounds-from-same-file", "mark-file-matches", "entry-applied", "errors-not-dropped"})
+		r.support([]string{"config-wiring", "reloc-binding", "keycheck", "samevalue-guard", "immutable-noeffect", "deleted-check", "layout", "atomic-rmw", "commit-order", "flush-callers", "upgrade-order", "retain", "append-flags", "reloc-keys", "close-mustcall", "cancel-not-completion", "data-file-writers", "bounds-from-same-file", "mark-file-matches", "entry-applied", "errors-not-dropped", "commit-stops", "flush-waits"})
 	},
 		"Decides structural necessary conditions of 'every superseded location freed exactly once', not the behaviour: every FreeList.Put call site in the module matches an accepted evidence form (old location from index.Get freed only after a successful index Update/Remove behind the full-key match; relocation frees the old location after the re-point and the new copy only when the re-point failed), so nothing is freed for a new key, a rejected Put or an absent key; the hand-over to GC never overwrites an unprocessed batch, runs in one exclusive flushLock section after a pool flush; the hand-over file is removed only after EOF and every record read is applied; records are marked only via the freelist, only when not already deleted and (GC) only when the size matches; the primary is flushed before the hand-over; freelist fields are lock-protected. Not covered: duplicates from two concurrent writers of one key, crash points, hand-over timing.",
 		"fault-dependent paths (I/O errors) are outside the statement; applyFreeList's behaviour on a read error is recorded as an observation")
